@@ -1,9 +1,13 @@
 package props
 
 import (
+	"archive/zip"
 	"bytes"
 	"context"
 	"fmt"
+	akzip "github.com/itchio/arkive/zip"
+	"github.com/itchio/lake/pools/zippool"
+	"github.com/itchio/lake/tlc"
 	"os"
 	"path/filepath"
 	"runtime"
@@ -25,6 +29,9 @@ type c06Spec struct {
 	Sched     string       `json:"sched"`
 	SchedSeed uint64       `json:"schedSeed"`
 	Procs     int          `json:"procs"`
+	// ZipSigned: the build was signed FROM A ZIP that has file entries only (tlc.WalkZip invents each entry's immediate
+	// parent directory and lists directories in no particular order); healing uses the same zip
+	ZipSigned bool `json:"zipSigned,omitempty"`
 }
 
 func c06Cases(tier string, seed uint64, flavor string) []lib.Case {
@@ -64,6 +71,15 @@ func c06Cases(tier string, seed uint64, flavor string) []lib.Case {
 			}
 			s := c06Spec{Build: "big", Seed: lib.Mix(seed, 608), Damages: dm, Sched: sc, SchedSeed: lib.Mix(seed, 609, uint64(wi), uint64(si)), Procs: []int{1, 4, 16}[(wi+si)%3]}
 			cases = append(cases, lib.Case{Kind: "big/" + sc, Spec: lib.MustSpec(s)})
+		}
+	}
+	// a build signed from a zip without directory entries
+	if flavor != "race" {
+		for di, dm := range [][]lib.Damage{{{Op: "rmroot"}}, {{Op: "rmall"}}, {{Op: "rmtree", Path: "assets"}}, {{Op: "rmtree", Path: "assets/textures"}}, {{Op: "rmtree", Path: "assets/textures/hd"}},
+			{{Op: "flip", Path: "assets/textures/hd/a.bin", N: 5}}, {{Op: "delete", Path: "x/y/z/w/deep.bin"}}, nil} {
+			for k := 0; k < 3; k++ {
+				cases = append(cases, lib.Case{Kind: "zipsigned", Spec: lib.MustSpec(c06Spec{Build: "zipsigned", Seed: lib.Mix(seed, 611, uint64(k)), Damages: dm, Sched: "perturb", SchedSeed: lib.Mix(seed, 612, uint64(di), uint64(k)), Procs: []int{1, 4, 16}[k], ZipSigned: true})})
+			}
 		}
 	}
 	for bi := 0; bi < nb; bi++ {
@@ -146,9 +162,125 @@ func damageClasses(ds []lib.Damage) string {
 	return strings.Join(cl, "+")
 }
 
+// c06ZipSigned: sign from a zip made with the standard library (file entries only, nested several levels), damage a
+// directory holding the same files, heal from that zip.
+func c06ZipSigned(c lib.Case, s c06Spec, env *lib.Env) lib.Result {
+	res := lib.Result{NonTrivial: len(s.Damages) > 0}
+	r := lib.NewRng(lib.Mix(s.Seed, 66))
+	ref := lib.NewBuild()
+	for _, p := range []string{"top.bin", "assets/b.bin", "assets/textures/hd/a.bin", "assets/textures/hd/c.bin", "assets/textures/lo/d.bin", "x/y/z/w/deep.bin", "x/empty.bin"} {
+		n := int64(r.Range(1, 2*lib.BS))
+		if strings.HasSuffix(p, "empty.bin") {
+			n = 0
+		}
+		ref.PutFile(p, lib.RandomBytes(n, r.Uint64()))
+	}
+	zipPath := filepath.Join(env.Scratch, "signed-from.zip")
+	zf, err := os.Create(zipPath)
+	if err != nil {
+		res.Inconclusive(err.Error())
+		return res
+	}
+	zw := zip.NewWriter(zf)
+	files := ref.Files()
+	r.Shuffle(len(files), func(i, j int) { files[i], files[j] = files[j], files[i] })
+	for _, e := range files {
+		w, err := zw.Create(e.Path) // no entries for directories
+		if err == nil {
+			_, err = w.Write(e.Data)
+		}
+		if err != nil {
+			res.Inconclusive(err.Error())
+			return res
+		}
+	}
+	zw.Close()
+	zf.Close()
+	zbytes, err := os.ReadFile(zipPath)
+	if err != nil {
+		res.Inconclusive(err.Error())
+		return res
+	}
+	zr, err := akzip.NewReader(bytes.NewReader(zbytes), int64(len(zbytes)))
+	if err != nil {
+		res.Inconclusive(err.Error())
+		return res
+	}
+	cont, err := tlc.WalkZip(zr, tlc.WalkOpts{})
+	if err != nil {
+		res.Inconclusive("WalkZip: " + err.Error())
+		return res
+	}
+	hashes, err := pwr.ComputeSignature(context.Background(), cont, zippool.New(cont, zr), lib.Quiet())
+	if err != nil {
+		res.Inconclusive("sign from zip: " + err.Error())
+		return res
+	}
+	sig := &pwr.SignatureInfo{Container: cont, Hashes: hashes}
+	dir := filepath.Join(env.Scratch, "tree")
+	ref.Materialize(dir)
+	for _, d := range s.Damages {
+		if err := lib.ApplyDamage(dir, d); err != nil {
+			res.Inconclusive("damage " + d.String() + ": " + err.Error())
+			return res
+		}
+	}
+	classes := damageClasses(s.Damages)
+	desc := fmt.Sprintf("build signed from a zip without directory entries (%d dirs listed by WalkZip) damages=%v procs=%d", len(cont.Dirs), s.Damages, s.Procs)
+	prev := runtime.GOMAXPROCS(s.Procs)
+	defer runtime.GOMAXPROCS(prev)
+	sc := lib.NewSched(s.Sched, s.SchedSeed)
+	lib.SetHook(sc)
+	defer lib.SetHook(nil)
+	defer sc.Finish()
+	vctx := &pwr.ValidatorContext{HealPath: "archive," + zipPath, Consumer: lib.Quiet()}
+	var verr error
+	var panicked bool
+	var stack string
+	v := lib.RunWithQuiescence(func() {
+		verr, panicked, stack = lib.Guard(func() error { return vctx.Validate(context.Background(), dir, sig) })
+	}, 30*time.Second)
+	res.Add("heals", 1)
+	res.Add("heals_of_a_build_signed_from_a_zip", 1)
+	switch {
+	case !v.Returned:
+		res.Violate("heal-does-not-return:zipsigned:"+classes, desc, v.Report)
+		return res
+	case panicked:
+		res.Violate("heal-panic:zipsigned:"+classes, desc, verr.Error(), stack)
+		return res
+	case verr != nil:
+		res.Violate("heal-returns-error:zipsigned:"+classes, desc, verr.Error())
+		return res
+	}
+	got, rerr := lib.ReadTree(dir)
+	if rerr != nil {
+		res.Inconclusive(rerr.Error())
+		return res
+	}
+	var bad []string
+	for _, e := range ref.Files() {
+		g := got.E[e.Path]
+		if g == nil || g.Kind != lib.KFile || !bytes.Equal(g.Data, e.Data) {
+			bad = append(bad, e.Path)
+		}
+	}
+	if len(bad) > 0 {
+		res.Violate("not-restored:zipsigned:"+classes, desc, "files missing or different after healing: "+strings.Join(bad, ", "))
+	} else if aerr := pwr.AssertValid(dir, sig); aerr != nil {
+		res.Violate("assertvalid-fails-after-heal:zipsigned:"+classes, desc, aerr.Error())
+	}
+	res.Feat = []string{fmt.Sprintf("zipsigned|%s|procs=%d", classes, s.Procs)}
+	res.SetAdd("damage_classes", classes)
+	return res
+}
+
 func c06Run(c lib.Case, env *lib.Env) lib.Result {
 	var s c06Spec
 	lib.ReadSpec(c, &s)
+	if s.ZipSigned {
+		return c06ZipSigned(c, s, env)
+	}
 	res := lib.Result{NonTrivial: len(s.Damages) > 0}
 	ref := valBuild(s.Build, s.Seed)
 	refDir := filepath.Join(env.Scratch, "ref")
@@ -319,7 +451,7 @@ func init() {
 	lib.Register(&lib.Property{
 		ID:          "C06",
 		Level:       "fault_enumeration",
-		Rule:        "reference builds (nested dirs, symlinks incl. dangling and to a directory, empty files/dirs; small build with block-boundary sizes); damage = nothing (valid directory), every single damage of the C05 list (one representative per file/boundary class), subtree-hiding kind swaps (directory -> file, -> dangling symlink, -> symlink to a sibling with equal child names, -> symlink to another existing directory, file/symlink -> non-empty directory), directory emptied / removed, whole tree emptied / missing, random combinations of 2-5; each damaged tree is healed by Validate+HealPath from a zip made by wharf's CompressZip under schedules validator-first, healer-first (forced at the verif hooks, bounded waits) and seeded perturbation with GOMAXPROCS 1/4/16. Oracle: returned (quiescence detector), no error, every signed entry exact (independent tree comparison, extra files allowed), AssertValid nil; valid directory: inode/mtime/size/checksum unchanged. In every third damaged case the same validator context then heals a second time (the same directory damaged again / another damaged copy) under the same oracle. Symlink destinations include non-normal spellings. distinct = distinct (build, damage classes, schedule, GOMAXPROCS)",
+		Rule:        "reference builds (nested dirs, symlinks incl. dangling and to a directory, empty files/dirs; small build with block-boundary sizes); damage = nothing (valid directory), every single damage of the C05 list (one representative per file/boundary class), subtree-hiding kind swaps (directory -> file, -> dangling symlink, -> symlink to a sibling with equal child names, -> symlink to another existing directory, file/symlink -> non-empty directory), directory emptied / removed, whole tree emptied / missing, random combinations of 2-5; each damaged tree is healed by Validate+HealPath from a zip made by wharf's CompressZip under schedules validator-first, healer-first (forced at the verif hooks, bounded waits) and seeded perturbation with GOMAXPROCS 1/4/16. Oracle: returned (quiescence detector), no error, every signed entry exact (independent tree comparison, extra files allowed), AssertValid nil; valid directory: inode/mtime/size/checksum unchanged. In every third damaged case the same validator context then heals a second time (the same directory damaged again / another damaged copy) under the same oracle. Symlink destinations include non-normal spellings. A build signed FROM A ZIP with file entries only (tlc.WalkZip lists invented parent directories in no particular order) is healed from that zip after removing nested directories / everything. distinct = distinct (build, damage classes, schedule, GOMAXPROCS)",
 		Assumptions: []string{"schedule space is sampled: two forced orders + seeded perturbation; the evidence counts runs in which a hidden child was checked before / after its parent was healed", "extra (unsigned) files may remain"},
 		Flavors: func(tier string) []string {
 			if tier == "thorough" {
